@@ -13,8 +13,9 @@ namespace ShellOp.ShellFw.C19
 open ShellOp ShellOp.ShellFw
 
 /-- The reader recognised every statement of `hook::_get_possible_handler_names`, and `hook::run`
-has the modelled statement order. -/
-theorem table_fresh : Facts.c19Stale = false ∧
+has the modelled statement order; the candidate names are produced without pathname expansion
+(`set -f`), which is what lets the model treat names as opaque strings. -/
+theorem table_fresh : Facts.c19Stale = false ∧ Facts.c19NoGlob = true ∧
     Facts.c19RunSteps = ["config-branch", "for-each-index", "select-index", "select-binding",
       "candidates", "append-fallback", "run-first", "done"] := by decide
 
